@@ -628,7 +628,7 @@ def call_extern(I, fn, args, kwargs):
             return _i.PyList(list(range(*args)))
         if nm == "next":
             v = args[0]
-            if isinstance(v, _i.Cursor):
+            if isinstance(v, _i.Cursor) or hasattr(v, "vfor"):
                 return v.next(I)
             raise Outside("next()")
         if nm == "round":
